@@ -341,6 +341,26 @@ func Equal(p1, p2 Ptr) (bool, error) {
 		if l1.Len() != l2.Len() {
 			return false, nil
 		}
+		if l1.flags&isBitList != 0 || l2.flags&isBitList != 0 {
+			// Bit lists have a zero element size, so they must not take the
+			// bytewise path below, and they can't be upgraded to struct lists.
+			if l1.flags&isBitList == 0 || l2.flags&isBitList == 0 {
+				return false, nil
+			}
+			nbytes := Size(l1.length / 8)
+			if !bytes.Equal(l1.seg.slice(l1.off, nbytes), l2.seg.slice(l2.off, nbytes)) {
+				return false, nil
+			}
+			if rem := uint(l1.length % 8); rem != 0 {
+				mask := byte(1)<<rem - 1
+				b1 := l1.seg.readUint8(l1.off.addSizeUnchecked(nbytes))
+				b2 := l2.seg.readUint8(l2.off.addSizeUnchecked(nbytes))
+				if b1&mask != b2&mask {
+					return false, nil
+				}
+			}
+			return true, nil
+		}
 		if l1.flags&isCompositeList == 0 && l2.flags&isCompositeList == 0 && l1.size != l2.size {
 			return false, nil
 		}
